@@ -23,7 +23,7 @@ CLAIMED = {
    technique=T, ref="4/C05"),
  "C06": dict(
    text="Proof: every Eval of the operator table, Evaluate, the evaluation stack and the symbol-table functions they use are under contract; each row of the table is an ensures clause discharged for all operand values (64-bit wrap modelled exactly), together with every panic site (nil, index, type assertion, division, unhashable map key) in those functions. All 20 operator implementations are also verified against the interface-method contracts used by Evaluate.",
-   note="Assumed: contracts of math/big, strings, regexp, fmt, bytes (contracts/extern.spec); closed world for datalog.Term/Op; regex and substring semantics uninterpreted. Not decided: completeness of Set.Intersect/Union results (soundness is proved), and Evaluate's full postfix semantics beyond well-formedness, error cases and one-element expressions.",
+   note="Assumed: contracts of math/big, strings, regexp, fmt, bytes (contracts/extern.spec); closed world for datalog.Term/Op; regex and substring semantics uninterpreted. Set intersection and union are proved sound and complete (every common element / every element of either operand occurs in the result). Not decided: Evaluate's full postfix semantics as one statement (well-formedness, error cases, stack discipline and one-element expressions are proved; the value of a longer sequence is the composition of the proved operator rows, which is not stated as a single obligation).",
    technique=T, ref="4/C06"),
  "C07": dict(
    text="Proof (partial): both converter directions (token <-> wire, 19 functions) are under contract row by row (term kinds and tags, operator codes, totality on well-formed content, fresh results, no writes to existing memory); the builder-level value layer (types.go: convert and fromDatalog for terms, predicates, expressions, rules, checks) likewise (each operator and term kind maps to its counterpart, strings resolve to the inserted symbol); symbol-table Insert/Str/Var/Clone/Extend/IsDisjoint/SplitOff have full functional contracts (default table below 1024, offsets, prefix preservation); Unmarshal is proved to produce a well-formed token or an error; the block builder is proved to emit only the new symbols and the facts, rules and checks it was given, with version 3.",
